@@ -29,7 +29,8 @@ LEVEL = 'model_checking'
 ENGINE = 'E2 small-scope enumeration against a nested-loop relational / dictionary reference + differential'
 RULE = ('joins: the C06 pair space (every pair of tables whose key vectors are ALL tuples of length 0..3 over '
         'K4={None,i1,i2,s1}; thorough also K6 with float(i1)==i1; variants key= / lkey,rkey / natural / compound / '
-        'compound with swapped right columns / ragged shapes x missing (not hashantijoin, which does not square '
+        'compound with swapped right columns / tuple-valued cells in a single key field (K4 + (i1,), (i1,i2), (None,s1), '
+        '()) with key=, missing=text, lkey/rkey by name and index / ragged shapes x missing (not hashantijoin, which does not square '
         'up) / prefixes / missing=text / right table with key fields only) x hashjoin hashleftjoin hashrightjoin '
         'hashantijoin hashlookupjoin x cache in {True, False} where the operator has the argument x passes 1,2,3 '
         'over the same view; every (variant, arguments, operator, cache, pair) point is one state, every pass one '
@@ -47,7 +48,8 @@ RULE = ('joins: the C06 pair space (every pair of tables whose key vectors are A
         'every pass is the relational result on the CURRENT contents; cache=True: probe side current, build side '
         'current or the one cached at pass 1.  Non-trivial join case: both sides have rows, '
         'some pair matches, some row has no partner.  lookups: every rectangular table with <=4 rows (thorough 5) '
-        'whose key column ranges over K6 (compound: two key columns, <=3 rows) x lookup lookupone dictlookup '
+        'whose key column ranges over K6 (compound: two key columns, <=3 rows), plus <=3 rows with tuple-valued key '
+        'cells (K4 + four tuples) and tuple-valued value cells (single and compound key) x lookup lookupone dictlookup '
         'dictlookupone recordlookup recordlookupone x value default / one field / two fields x strict x dictionary= '
         'in {omitted, empty dict, dict pre-filled with foreign keys (must stay), copy-on-read persistent-style '
         'mapping (pickle round trip on set/get, as shelve without writeback)}; selector FORMS: every table <=3 rows '
@@ -117,6 +119,19 @@ def lookup_tables(tier, seed):
     for kv in J.key_tuples(vcells, 3):
         rows = [(k[0], None if i % 2 else 'id%d' % i, k[1]) for i, k in enumerate(kv)]
         out.append(('k', [('k', 'id', 'v')] + rows))
+    # tuple-valued cells (hashable) as single keys and as values: a tuple cell must not be taken for a compound
+    # key / a multi-field value
+    KT = K4 + [(r['i1'],), (r['i1'], r['i2']), (None, r['s1']), ()]
+    for kv in J.key_tuples(KT, 3):
+        rows = [(k, 'id%d' % i, ('v', i) if i % 2 else ()) for i, k in enumerate(kv)]
+        out.append(('k', [('k', 'id', 'v')] + rows))
+    tcells = list(itertools.product([r['i1'], (r['i1'],), ()], [(r['s1'],), (), 'x']))
+    for kv in J.key_tuples(tcells, 3):
+        rows = [(k[0], 'id%d' % i, k[1]) for i, k in enumerate(kv)]
+        out.append(('k', [('k', 'id', 'v')] + rows))
+    for kv in J.key_tuples(list(itertools.product([r['i1'], (r['i1'],)], [None, (r['i1'],)])), 3):
+        rows = [(k[0], 'id%d' % i, k[1], 'v%d' % i) for i, k in enumerate(kv)]
+        out.append((('k', 'j'), [('k', 'id', 'j', 'v')] + rows))
     if tier == 'quick':
         cells = list(itertools.product(K4, [None, r['i1']]))
     else:
